@@ -25,7 +25,7 @@ type testStats struct {
 	Labels      map[string]int64 `json:"labels"`
 	Samples     []any            `json:"samples"`
 	fps         map[uint64]struct{}
-	Exhaustive  bool `json:"exhaustive,omitempty"`
+	Exhaustive  bool  `json:"exhaustive,omitempty"`
 	Excluded    int64 `json:"excluded,omitempty"`
 	// DistinctCounted counts non-trivial cases known to be distinct by construction
 	// (enumerations), which therefore need no fingerprint.
